@@ -139,6 +139,26 @@ func (vc *VC) callModular(fr *Frame, st *State, fn *ssa.Function, fc *FuncContra
 	rs := fn.Signature.Results()
 	if fc.Opaque {
 		rets = vc.ufCall(funcSym(fn), fn.Signature, args)
+	} else if fc.Pure {
+		// deterministic function: the same (syntactic) arguments give the same result
+		// constants, so repeated evaluation in specs and bodies denotes one value
+		key := funcSym(fn)
+		for _, a := range args {
+			for _, t := range vc.flattenVal(a) {
+				key += "|" + t.E
+			}
+		}
+		if vc.pureCache == nil {
+			vc.pureCache = map[string][]Val{}
+		}
+		if r, ok := vc.pureCache[key]; ok {
+			rets = r
+		} else {
+			for i := 0; i < rs.Len(); i++ {
+				rets = append(rets, vc.fresh(rs.At(i).Type(), fnKey(fn)+"."+resultNames(fn)[i], st))
+			}
+			vc.pureCache[key] = rets
+		}
 	} else {
 		for i := 0; i < rs.Len(); i++ {
 			rets = append(rets, vc.fresh(rs.At(i).Type(), fnKey(fn)+"."+resultNames(fn)[i], st))
